@@ -36,6 +36,19 @@ Theorem C03_sticky : forall a e o, a_err a = Some e -> (forall bs c, o <> AReset
 Proof. exact error_is_sticky. Qed.
 Print Assumptions C03_sticky.
 
+(* DecodeWithContext under a context that is already done returns the context's error, no FIT value, and the error is kept:
+   every later entry point returns it (until Reset) -- never a FIT assembled from what had been decoded before *)
+Theorem C03_context_error_is_kept : forall a o, a_err a = None -> (forall bs c, o <> AReset bs c) -> o <> ASeekStart ->
+  let a1 := fst (api_step a ADecodeCancelled) in
+  snd (api_step a ADecodeCancelled) = RErr E_Context /\ fst (api_step a1 o) = a1 /\
+  (snd (api_step a1 o) = RErr E_Context \/ snd (api_step a1 o) = RBool false \/ snd (api_step a1 o) = RIntegrity 0 (Some E_Context)).
+Proof.
+  intros a o Hn Hr Hs. cbn zeta.
+  assert (E : api_step a ADecodeCancelled = (fail a E_Context, RErr E_Context)) by (unfold api_step; rewrite Hn; reflexivity).
+  rewrite E. cbn [fst snd]. split; [reflexivity|]. apply error_is_sticky; [reflexivity|exact Hr|exact Hs].
+Qed.
+Print Assumptions C03_context_error_is_kept.
+
 (* raw decoder: every slice d.BytesArray[:n] it takes -- each emitted segment, each data-record length it stores -- has
    n <= 130051 for every byte stream, and the array declared in decoder/raw.go (translated: gen/DecConst.v) is that long *)
 Theorem C03_raw_slices_fit : forall bs, bytes_ok bs -> res_ok (raw_decode bs).
